@@ -102,6 +102,11 @@ func (w *World) verifyFunction(fn *ssa.Function, fc *FuncContract) (res *FuncRes
 	}
 	// global facts (constant package variables)
 	fr.assumeGlobals(entry)
+	if fn.Name() == "init" && fn.Pkg != nil {
+		// the initialiser runs once: its guard is still false
+		gname := "G." + fn.Pkg.Pkg.Path() + ".init$guard"
+		enc.assume(Not(entry.Get(gname, "Bool")), "package initialiser runs once")
+	}
 
 	fr.run(tTrue, st)
 
@@ -128,6 +133,21 @@ func (w *World) verifyFunction(fn *ssa.Function, fc *FuncContract) (res *FuncRes
 	can := enc.oblige("vacuity", fn.Name(), "some return is reachable under the assumptions (must NOT be refutable)", nil, tTrue, Not(anyRet))
 	can.MustFail = true
 
+	// a function that assigns a package variable carrying a declared fact (the initialiser above all)
+	// re-establishes the fact
+	stored := storedGlobals(fn)
+	if fn.Pkg != nil {
+		for _, k := range sortedKeys(w.P.Globals) {
+			g := w.P.Globals[k]
+			if g.Lib || !stored[k] {
+				continue
+			}
+			env := &Env{w: w, vars: map[string]TV{}, state: final, old: entry, scope: g.Scope, where: "global " + k}
+			cl := &Clause{Kind: "global", Text: g.Text, Expr: g.Expr, File: "global " + k}
+			t := fr.safeTr(env, cl)
+			enc.oblige("global", fn.Name(), "global invariant "+k+": "+g.Text, nil, anyRet, t)
+		}
+	}
 	if fc == nil {
 		return
 	}
@@ -155,6 +175,9 @@ func (fr *Frame) assumeGlobals(st *State) {
 	w := enc.w
 	for _, k := range sortedKeys(w.P.Globals) {
 		g := w.P.Globals[k]
+		if fr.fn.Name() == "init" && fr.fn.Pkg != nil && strings.HasPrefix(k, fr.fn.Pkg.Pkg.Path()+".") && !g.Lib {
+			continue // the initialiser establishes these facts, it cannot assume them
+		}
 		env := &Env{w: w, vars: map[string]TV{}, state: st, old: st, scope: g.Scope, where: "global " + k}
 		func() {
 			defer func() {
@@ -246,4 +269,19 @@ func (fr *Frame) frameObligations(fc *FuncContract, pre *Env, entry, final *Stat
 		goal := A("forall", A("(("+q.Op+" Int))"), Implies(And(cond...), Eq(Select(fin, q), Select(init, q))))
 		enc.oblige("frame", fc.File, "assigns clause: "+name+" changes only where declared", nil, pc, goal)
 	}
+}
+
+// storedGlobals lists the package variables a function assigns directly.
+func storedGlobals(fn *ssa.Function) map[string]bool {
+	out := map[string]bool{}
+	for _, b := range fn.Blocks {
+		for _, ins := range b.Instrs {
+			if st, ok := ins.(*ssa.Store); ok {
+				if g, ok := st.Addr.(*ssa.Global); ok && g.Pkg != nil {
+					out[g.Pkg.Pkg.Path()+"."+g.Name()] = true
+				}
+			}
+		}
+	}
+	return out
 }
